@@ -887,6 +887,9 @@ static void run_script(const string &script)
 		} else if (c == "mkdir") {
 			o += ",\"rc\":" + jnum(mkdir(A(1).s.c_str(), 0777));
 			api = false;
+		} else if (c == "symlink") {
+			o += ",\"rc\":" + jnum(symlink(A(1).s.c_str(), A(2).s.c_str()));
+			api = false;
 		} else if (c == "mkfile") {
 			Arg p = A(1), d = A(2);
 			FILE *f = fopen(p.s.c_str(), "wb");
